@@ -164,8 +164,9 @@ Definition part_ok (c : cfg) (tr : list event) (count : Z) (tails : list Z) (par
     end.
 
 Definition holds_C02 (c : cfg) (offers : list (list (list Z)))
-  (obs : list (Z * accessor * Z * Z * Z * Z * Z * Z) * list (status * list (outcome Z)) * (Z * list Z * list words * Z)) : bool :=
-  let '(trt, results, (count, tails, parts, limit)) := obs in
+  (obs : list (Z * accessor * Z * Z * Z * Z * Z * Z) * list (status * list (outcome Z)) * (Z * list Z * list words * Z * Z)
+         * list (Z * Z * Z * Z * list Z)) : bool :=
+  let '(trt, results, (count, tails, parts, limit, subpos), frags) := obs in
   let tr := map tuple_ev trt in
   let accs := map (fun x => accepted (fst x) (snd (snd x))) (combine offers results) in
   let acc_all := sort_by_pos (concat accs) in
